@@ -40,6 +40,8 @@ impl Display for DictKey {
 
 impl Display for Array {
     fn fmt(&self, f: &mut std::fmt::Formatter<'_>) -> std::fmt::Result {
+        #[cfg(kepler_5_rrss_verif)]
+        crate::verif_seams::probe_dict_order("display", self.dict.keys());
         write!(
             f,
             "[{}]",
